@@ -400,7 +400,7 @@ class Gen:
             return L.when(cond, L.fn("pop", L.term(r.choice(["stk1", "stk1", "stk1", "stk2"]))))
         if c == "pushpair":
             # a distinct push next to other pushes of few distinct values: what 'distinct' means is decided by the stack itself
-            tcols = self.cols({"txt", "txtE"})
+            tcols = self.cols({"txt"}, strict=True) if "print" in self.groups else self.cols({"txt", "txtE"})
             val = self.href(r.choice(tcols)) if (tcols and r.random() < 0.5) else L.term(r.choice(["a", "b", "ab", "B"]))
             return L.fn(r.choice(["push_distinct", "push_distinct", "push"]), L.term(r.choice(["stk1", "stk1", "stk1", "stk2"])), val,
                         quals=(["distinct"] if r.random() < 0.4 else []))
@@ -671,7 +671,8 @@ class Gen:
         comps = [self.component() for _ in range(n)]
         if "stateful" in self.groups and r.random() < 0.2:
             # one stack fed and drained by several components: 'distinct' and pop() are about the stack as it is NOW
-            tcols = self.cols({"txt", "txtE"})
+            # (printed stack elements must not be None - IMPL, CHOICES.md: only columns every row reaches when there are print components)
+            tcols = self.cols({"txt"}, strict=True) if "print" in self.groups else self.cols({"txt", "txtE"})
             v1 = self.href(r.choice(tcols)) if tcols else L.term("a")
             block = [L.fn("push_distinct", L.term("stk1"), v1),
                      L.fn("push", L.term("stk1"), L.term(r.choice(["a", "b", "ab", "B"]))),
